@@ -132,6 +132,8 @@ func checkC10(e *Env) {
 	e.R.Explanation = "Decided (structural necessary conditions of C10): in every library function reachable from the parser entry points, integers declared by the input (CBOR heads, big-endian length fields and everything computed from them, tracked through struct fields, parameters, closures and returns) never reach, without a dominating range check or an intrinsic bound: a conversion to a signed type (U1), a slice/index bound (U3), an allocation size or count argument (U4), or a loop bound whose iterations do not consume input (U5); allocation sizes are <= 2^16, <= 2^24 or the caller's constant record-size limit; no explicit panic is reachable from a parser unless it is the default arm of an exhaustive switch over a closed enumeration, is guarded by its callers, or is one of two documented cannot-happen sites (E8); recursion among parser functions is reported. " +
 		"Not decided: index expressions on un-tainted indices (p.input[0] after isEmpty()), nil dereferences, stdlib internals (x509, asn1, url), termination of loops not bounded by an input integer."
 	e.R.RuleText = "E6: forward taint from integer sources (decodeTypedUint, binary.BigEndian.UintN, binary.Read targets, Decode3BytesUint) to fixpoint; per hazard use an upper bound from dominating branch facts, intrinsic type ranges, len()/io.ReadFull contracts, the idiom x<=L && y<=L-x => x+y<=L, struct invariants; E8: explicit panic reachability with closed-enumeration discharge"
+	// COPYLEN: no tolerant copy of input bytes (shared rule, copylen.go)
+	copiesAreExact(e, 1, "")
 	scope := parserScope(e, parserEntries)
 	e.R.Counts["scope_functions"] = len(scope)
 	runUntrusted(e, scope, func(f *ssa.Function) bool { return !inDeterministic(f) }, nil)
